@@ -7,6 +7,8 @@ import (
 	"testing"
 	"time"
 
+	"github.com/hashicorp/raft"
+
 	kit "github.com/liftbridge-io/liftbridge/internal/verifkit"
 )
 
@@ -93,5 +95,92 @@ func TestVerifC18Single(t *testing.T) {
 			return
 		}
 		c18Single(rep, i, seeds[i])
+	})
+}
+
+// c18Snapshot runs one single-server scenario in which a Raft snapshot is
+// forced before a restart, so that the restarted controller starts from the
+// snapshot instead of replaying the whole log.  trailing > 0 scales Raft's
+// TrailingLogs (10240 in production, not configurable in Liftbridge) down so
+// that the snapshot also compacts the log.
+func c18Snapshot(rep *kit.Report, run int, seed uint64, trailing int) {
+	e := c18NewEnv(rep, "snapshot", run, seed)
+	rng := e.rng
+	c, _, err := vfSingle("c18n", e.mut(nil))
+	if err != nil {
+		rep.Inconc(fmt.Sprintf("[snapshot run %d] server start failed: %v", run, err))
+		return
+	}
+	e.c = c
+	defer e.close()
+	e.attach("a")
+	e.installHooks(rng.Range(0, 2), rng.Range(0, 2), rng.Range(10, 30), rng.Range(10, 30), false)
+	nops := rng.Range(10, 22)
+	snapAt := rng.Range(4, nops-2)
+	quiesce := rng.Bool()
+	for i := 0; i < nops; i++ {
+		e.mu.Lock()
+		stop := e.inconc || e.failed
+		e.mu.Unlock()
+		if stop {
+			break
+		}
+		if i == snapAt {
+			srv := e.leader()
+			if srv == nil {
+				break
+			}
+			if quiesce {
+				// let the dispatcher record everything first: the snapshot then
+				// covers the last PUBLISH_ACTIVITY entry as well
+				target := e.absorbStore(srv, "a")
+				vfWait(20*time.Second, func() bool { return srv.activity.LastPublishedRaftIndex()+1 >= target })
+			}
+			e.absorbStore(srv, "a")
+			if trailing > 0 {
+				if err := srv.getRaft().ReloadConfig(raft.ReloadableConfig{TrailingLogs: uint64(trailing), SnapshotInterval: 120 * time.Second,
+					SnapshotThreshold: 8192, HeartbeatTimeout: time.Second, ElectionTimeout: time.Second}); err != nil {
+					e.inconclusive("ReloadConfig: " + err.Error())
+					break
+				}
+			}
+			if err := srv.getRaft().Snapshot().Error(); err != nil {
+				e.logf("snapshot: %v", err)
+			} else {
+				e.mu.Lock()
+				e.snapshots++
+				e.mu.Unlock()
+			}
+			first, _ := srv.getRaft().store.FirstIndex()
+			e.step("snapshot(quiesced=%v,firstIndexAfter=%d,lastPublished=%d)", quiesce, first, srv.activity.LastPublishedRaftIndex())
+			if !e.restartNode("a") || e.leader() == nil {
+				break
+			}
+			if srv := e.leader(); srv != nil {
+				e.logf("after snapshot restart: lastPublished=%d", srv.activity.LastPublishedRaftIndex())
+			}
+		}
+		e.doOp(e.genOp(1, false))
+	}
+	e.finish(fmt.Sprintf("fence%d", run))
+	e.account()
+}
+
+func TestVerifC18Snapshot(t *testing.T) {
+	rep := kit.NewReport("C18", "snapshot")
+	defer rep.Write()
+	rep.SetRule(c18Rule)
+	root := kit.NewRNG(kit.Mix(kit.Seed(), 0xC185))
+	n := kit.Scale(8, 32)
+	seeds := make([]uint64, n)
+	for i := range seeds {
+		seeds[i] = root.Uint64()
+	}
+	trailing := kit.EnvInt("C18_TRAILING", 0)
+	kit.Parallel(n, kit.Workers(), func(i int) {
+		if rep.NumViolations() >= 4 {
+			return
+		}
+		c18Snapshot(rep, i, seeds[i], trailing)
 	})
 }
